@@ -271,8 +271,8 @@ def run_check(mod):
                 continue
             seen.add(key)
             c = shrink(mod, cases[idx], f)
-            o = mod.run_impl(c)
-            f2 = mod.oracle(c, o) or f
+            o, f2 = run_and_judge(mod, c)
+            f2 = f2 or f
             p = write_replay({'property': prop, 'case': strip(c), 'impl_observation': o, 'failure': f2})
             violations.append('VIOLATION property=%s replay=%s' % (prop, p))
     elif b['proof_broken'] or mismatches or corr_errors:
@@ -280,13 +280,12 @@ def run_check(mod):
         found = None
         wide = mod.generate('widen', random.Random(seed + 1), around=[cases[i] for i in mismatches[:20]])
         for c in wide['cases']:
-            o = mod.run_impl(c)
-            f = mod.oracle(c, o)
+            o, f = run_and_judge(mod, c)
             if f is not None and f.get('signature', 'unclassified') not in open_sigs:
                 c = shrink(mod, c, f)
-                o = mod.run_impl(c)
+                o, f2 = run_and_judge(mod, c)
                 found = write_replay({'property': prop, 'case': strip(c), 'impl_observation': o,
-                                      'failure': mod.oracle(c, o) or f})
+                                      'failure': f2 or f})
                 break
         if found:
             violations.append('VIOLATION property=%s replay=%s' % (prop, found))
@@ -378,6 +377,18 @@ def shrink(mod, case, failure, budget=300):
                 progress = True
                 break
     return cur
+
+
+def run_and_judge(mod, c):
+    """run the implementation on c and judge it; a failure of the harness itself is a failure of the check on that input"""
+    try:
+        o = mod.run_impl(c)
+    except Exception as e:  # noqa: BLE001
+        return {'harness_error': repr(e)[:300]}, {'signature': 'harness_error:run_impl', 'kind': type(e).__name__}
+    try:
+        return o, mod.oracle(c, o)
+    except Exception as e:  # noqa: BLE001
+        return o, {'signature': 'harness_error:oracle', 'kind': type(e).__name__}
 
 
 def replay(mod, path):
